@@ -126,7 +126,7 @@ pub enum Op {
     /// here, i.e. somewhere inside its next operation
     StallSelf { ns: u64, skip: u32 },
     /// while this client holds the reference of its next `get`/`get_mut` hit it also performs
-    /// `what` (0 = close(), 1 = max_cost(), 2 = update_max_cost(v), 3 = insert_if_present(key v of another shard), 4 = get_ttl(key v of another shard)) - operations that take no
+    /// `what` (0 = close(), 1 = max_cost(), 2 = update_max_cost(v), 3 = insert_if_present(key v of a HIGHER shard), 4 = get_ttl(key v of a higher shard): the clients keep a lock order among themselves) - operations that take no
     /// shard lock and therefore must not care about the held reference
     WhileHolding { what: u8, v: i64 },
     /// fault (async flavour): the future of this client's next remove / wait / clear / close is dropped
